@@ -15,6 +15,7 @@ import (
 	sdk "github.com/cosmos/cosmos-sdk/types"
 	txtypes "github.com/cosmos/cosmos-sdk/types/tx"
 	"github.com/cosmos/cosmos-sdk/types/tx/signing"
+	sdkvesting "github.com/cosmos/cosmos-sdk/x/auth/vesting/types"
 	banktypes "github.com/cosmos/cosmos-sdk/x/bank/types"
 	"github.com/ethereum/go-ethereum/common"
 	ethtypes "github.com/ethereum/go-ethereum/core/types"
@@ -22,6 +23,7 @@ import (
 	haqqtypes "github.com/haqq-network/haqq/types"
 	evmtypes "github.com/haqq-network/haqq/x/evm/types"
 	feemarkettypes "github.com/haqq-network/haqq/x/feemarket/types"
+	vestingtypes "github.com/haqq-network/haqq/x/vesting/types"
 
 	"verif/harness/report"
 	"verif/harness/vn"
@@ -728,6 +730,8 @@ func c03Nonce(r *report.R, id string) {
 	n.BeginBlock(vn.BlockOpts{})
 	cur := n.EthNonce(a.Eth)
 	var trace []string
+	var accepted [][]byte
+	acctState := "plain"
 	steps := 6 + rng.Intn(10)
 	for s := 0; s < steps; s++ {
 		if rng.Intn(5) == 0 {
@@ -736,6 +740,33 @@ func c03Nonce(r *report.R, id string) {
 			n.BeginBlock(vn.BlockOpts{})
 		}
 		r.Eval(1)
+		// every transaction executed so far stays unrepeatable, whatever happened to the account since
+		if len(accepted) > 0 && rng.Intn(2) == 0 {
+			old := accepted[rng.Intn(len(accepted))]
+			before := n.Snapshot(n.Ctx())
+			res := n.Deliver(old)
+			d := vn.Diff(before, n.Snapshot(n.Ctx()))
+			if res.Code == 0 || len(d) != 0 {
+				r.Violation(id, "replay-of-executed-tx|"+acctState+"|accepted-or-left-a-trace", fmt.Sprintf("an already executed transaction was accepted again: code=%d diff=%v", res.Code, vn.DiffStrings(d, 6)), trace)
+				break
+			}
+			r.Count("old_tx_replays_rejected", 1)
+			r.Nontriv("replay-of-executed-tx|" + acctState)
+		}
+		// a third party turns the account into a vesting account (no consent needed)
+		if acctState == "plain" && cur > 0 && rng.Intn(6) == 0 {
+			x := n.Accounts[3]
+			lock := sdkvesting.Periods{{Length: 1000, Amount: vn.Coins(5)}}
+			res := n.Deliver(n.CosmosTx(vn.CosmosArgs{Msgs: []sdk.Msg{vestingtypes.NewMsgConvertIntoVestingAccount(x.Addr, a.Addr, n.Time.UTC(), lock, lock, false, false, nil)}, Gas: 500000, Fee: vn.Coins(500000 * 2000)}, x))
+			trace = append(trace, fmt.Sprintf("third party converts the account into a vesting account: code=%d", res.Code))
+			if res.Code == 0 {
+				acctState = "converted-into-vesting"
+				if got := n.Seq(a.Addr); got != cur {
+					r.Violation(id, "sequence-changed-by-account-conversion", fmt.Sprintf("sequence %d became %d when the account was converted into a vesting account", cur, got), trace)
+					break
+				}
+			}
+		}
 		eth := rng.Intn(3) > 0
 		var nonces []uint64
 		offs := []int64{0, 0, 0, 1, 2, -1, 5}
@@ -760,11 +791,19 @@ func c03Nonce(r *report.R, id string) {
 			cls = "multi"
 		}
 		var tx []byte
+		var parts [][]byte // the Ethereum messages of a batch, each wrapped on its own
 		if eth {
 			var txs []*ethtypes.Transaction
 			for _, nn := range nonces {
 				to := b.Eth
-				txs = append(txs, n.SignEth(a, vn.EthArgs{Type: rng.Intn(2), Nonce: nn, To: &to, Value: big.NewInt(1), Gas: 30000, GasPrice: big.NewInt(3000)}))
+				args := vn.EthArgs{Type: rng.Intn(2), Nonce: nn, To: &to, Value: big.NewInt(1), Gas: 30000, GasPrice: big.NewInt(3000)}
+				if rng.Intn(3) == 0 { // contract creation (init code: STOP)
+					args.To, args.Gas, args.Data = nil, 80000, []byte{0}
+					cls += "+create"
+				}
+				t := n.SignEth(a, args)
+				txs = append(txs, t)
+				parts = append(parts, n.WrapEth(t))
 			}
 			tx = n.WrapEth(txs...)
 		} else {
@@ -788,12 +827,17 @@ func c03Nonce(r *report.R, id string) {
 			route = "eth"
 		}
 		if wantOK {
-			if res.Code != 0 || got != cur+uint64(len(nonces)) {
+			if res.Code != 0 {
 				// a correct-nonce tx may still fail for other reasons; it must not be a nonce error
 				r.Note("expected acceptance: %.100s", res.Log)
+			} else if got != cur+uint64(len(nonces)) {
+				r.Violation(id, fmt.Sprintf("nonce|%s|%s|sequence-not-advanced-by-number-of-executed-messages", route, cls), fmt.Sprintf("sequence %d, executed nonces %v, sequence afterwards %d", cur, nonces, got), trace)
+				break
 			} else {
 				r.Nontriv(fmt.Sprintf("nonce|%s|%s|accepted", route, cls))
 				r.Count("nonce_accepted", 1)
+				accepted = append(accepted, tx)
+				accepted = append(accepted, parts...)
 			}
 			cur = got
 		} else {
